@@ -295,6 +295,8 @@ def check_tie_strings(pref, ties, strings):
 def c13(sc, tr):
     res = _new()
     p = sc['params']
+    if sc.get('giant'):
+        res['probes']['giant-lane(n1>65535)'] = 1
     mp = p['mp']
     fail = gen_failed(tr)
     if fail is not None:
